@@ -37,15 +37,27 @@ func ParseYamlInDir(path string, namespaceName string) (*Namespace, error) {
 	var paths []string
 
 	if fileInfo.IsDir() {
-		err := filepath.Walk(path,
-			func(path string, info os.FileInfo, err error) error {
+		// filepath.Walk does not follow symbolic links, not even the one it is started
+		// on: a package directory that is a link would be a package without model files
+		root, err := filepath.EvalSymlinks(path)
+		if err != nil {
+			return nil, err
+		}
+
+		err = filepath.Walk(root,
+			func(p string, info os.FileInfo, err error) error {
 				if err != nil {
 					return err
 				}
 				if !info.IsDir() &&
 					(strings.HasSuffix(info.Name(), ".yml") || strings.HasSuffix(info.Name(), ".yaml")) &&
 					info.Name() != packaging.PackageFileName {
-					paths = append(paths, path)
+					// reported under the name the directory was given by
+					rel, err := filepath.Rel(root, p)
+					if err != nil {
+						return err
+					}
+					paths = append(paths, filepath.Join(path, rel))
 				}
 				return nil
 			})
